@@ -51,6 +51,8 @@ package date
 //@        && (last > 0 ==> len(result.periods) <= last && (len(result.periods) < last ==> result.periods[0].Start == period.Start))
 //@   ensures @empty: interval != Once && period.End < period.Start ==> len(result.periods) == 0
 //@   ensures @fresh: fresh(result.periods)
+//@   ensures @ascending: forall a int, b int :: {result.periods[a].End, result.periods[b].End} 0 <= a && a < b && b < len(result.periods) ==> result.periods[a].End < result.periods[b].End
+//@   loop 1 invariant forall a int, b int :: {periods[a].End, periods[b].End} 0 <= a && a < b && b < len(periods) ==> periods[a].End > periods[b].End
 //@   loop 1 invariant counter == len(periods) && fresh(periods) && end <= period.End
 //@   loop 1 invariant forall k int :: {periods[k].End} 0 <= k && k < len(periods) ==> periodOK(periods[k], period, interval)
 //@   loop 1 invariant forall k int :: {periods[k].End} 0 < k && k < len(periods) ==> periods[k].End + 1 == periods[k-1].Start
@@ -62,3 +64,37 @@ package date
 //@   loop 2 invariant forall k int :: {periods[k].End} 0 <= k && k < len(periods) && (k < i || k > j) ==> periods[k] == entry(periods[len(periods)-1-k])
 //@   loop 2 invariant forall k int :: {periods[k].End} i <= k && k <= j ==> periods[k] == entry(periods[k])
 //@   loop 2 decreases j - i + 1
+//
+//@ func (Partition).Size
+//@   ensures result == len(part.periods)
+//
+//@ func (Partition).Contains
+//@   ensures result <==> (part.span.Start <= d && d <= part.span.End)
+//
+//@ func (Partition).StartDates
+//@   ensures len(result) == len(part.periods) && fresh(result)
+//@   ensures forall k int :: {result[k]} 0 <= k && k < len(result) ==> result[k] == part.periods[k].Start
+//@   loop 1 invariant len(res) == $i && fresh(res) && 0 <= $i && $i <= len(part.periods)
+//@   loop 1 invariant forall k int :: {res[k]} 0 <= k && k < len(res) ==> res[k] == part.periods[k].Start
+//
+//@ func (Partition).EndDates
+//@   ensures len(result) == len(part.periods) && fresh(result)
+//@   ensures forall k int :: {result[k]} 0 <= k && k < len(result) ==> result[k] == part.periods[k].End
+//@   loop 1 invariant len(res) == $i && fresh(res) && 0 <= $i && $i <= len(part.periods)
+//@   loop 1 invariant forall k int :: {res[k]} 0 <= k && k < len(res) ==> res[k] == part.periods[k].End
+//
+// Align: every date up to the last period end is attributed to the end of the period containing it
+// (dates before the first period to the first period); later dates to the zero time.
+//@ def contiguous(ps []Period) bool := forall k int :: {ps[k].Start} 0 < k && k < len(ps) ==> ps[k].Start == ps[k-1].End + 1
+//
+//@ def ascendingEnds(ps []Period) bool := forall a int, b int :: {ps[a].End, ps[b].End} 0 <= a && a < b && b < len(ps) ==> ps[a].End < ps[b].End
+//
+//@ func (Partition).Align
+//@   requires contiguous(part.periods) && ascendingEnds(part.periods)
+//
+//@ func (Partition).Align$1
+//@   requires contiguous(part.periods) && ascendingEnds(part.periods)
+//@   ensures @hit: len(part.periods) > 0 && d <= part.periods[len(part.periods)-1].End ==>
+//@        (exists k int :: 0 <= k && k < len(part.periods) && result == part.periods[k].End && d <= part.periods[k].End
+//@              && (k == 0 || part.periods[k].Start <= d))
+//@   ensures @miss: len(part.periods) == 0 || d > part.periods[len(part.periods)-1].End ==> result == 0
